@@ -95,6 +95,7 @@ impl<'a> StateMachine<'a> {
     //@|         r.is_ok() && !old(self).config.color_only && is_prefix("Binary files "@, old(self).line@) && !(old(self).minus_file@.len() == 0 && old(self).plus_file@.len() == 0) ==>
     //@|             final(self).minus_file@ == binary_name(old(self).minus_file@, old(self).config) && final(self).plus_file@ == binary_name(old(self).plus_file@, old(self).config)
     //@|             && final(self).state == old(self).state && final(self).painter == old(self).painter,  // @C14,C10:binary.files.line.names.both.files.relative.to.the.user.and.marks.them
+    //@|         r.is_ok() && !old(self).config.color_only && is_prefix("Binary files "@, old(self).line@) ==> r == Ok::<bool, std::io::Error>(true),  // @C04,C14:a.binary.files.line.is.claimed.it.goes.into.the.file.header.or.is.printed.once.never.both
     //@ stub src/delta.rs StateMachine::should_handle spec=delta.should_handle
     //@ stub src/handlers/diff_header.rs StateMachine::handle_pending_line_with_diff_name spec=diff_header.handle_pending
     //@ stub src/handlers/mod.rs StateMachine::handle_additional_cases spec=diff_header.handle_additional_cases
